@@ -34,6 +34,7 @@ type SolveConfig struct {
 	Keep    bool
 	Confirm bool // thorough: second solver must confirm quantifier-free obligations
 	StopOnFail bool // selftest: one failed obligation is enough, skip the rest
+	CrossCheck bool // let every racer finish and compare the answers (detects an unsound encoding or solver)
 }
 
 type solverSpec struct {
@@ -115,13 +116,14 @@ type prepared struct {
 	base    string
 	nfresh  int
 	files   []string
+	intFile map[string]string // bit-vector query file -> its integer encoding
 }
 
 // genMu serialises term construction and printing (the smt package is not thread-safe).
 var genMu sync.Mutex
 
 func (p *Prog) prepare(q *Query, cfg SolveConfig, id int) *prepared {
-	pr := &prepared{q: q, id: id, base: filepath.Join(cfg.WorkDir, fmt.Sprintf("q%05d", id))}
+	pr := &prepared{q: q, id: id, base: filepath.Join(cfg.WorkDir, fmt.Sprintf("q%05d", id)), intFile: map[string]string{}}
 	if q.Goal.IsTrue() && !q.Cover {
 		pr.trivial = true
 		return pr
@@ -155,6 +157,17 @@ func (p *Prog) gen(pr *prepared, rounds int) (file string, stillQuant bool) {
 	f := pr.base + suffix + ".smt2"
 	_ = os.WriteFile(f, []byte(txt), 0o644)
 	pr.files = append(pr.files, f)
+	// the same query in the integer encoding (sound abstraction, see smt/toint.go)
+	if !q.Cover && rounds >= 0 {
+		if ias, ok := smt.ToInt(p.D, asserts); ok {
+			itxt := "; integer encoding of " + q.Ob + " path " + fmt.Sprint(q.PathNo) + "\n; " + q.Desc + "\n" +
+				p.D.Script(ias, smt.ScriptOpts{})
+			fi := pr.base + suffix + ".int.smt2"
+			_ = os.WriteFile(fi, []byte(itxt), 0o644)
+			pr.files = append(pr.files, fi)
+			pr.intFile[f] = fi
+		}
+	}
 	return f, smt.HasQuant(asserts...)
 }
 
@@ -228,14 +241,18 @@ func (p *Prog) solve(pr *prepared, cfg SolveConfig) *Outcome {
 		}
 		// race z3-new and cvc5; the first "unsat" cancels the other
 		rctx, cancel := context.WithCancel(ctx)
-		res := make(chan [2]string, 3)
+		res := make(chan [2]string, 4)
 		race := func(sv string) {
-			st, out, d := runSolver(rctx, solvers[sv], f, tmo)
-			if sv == "z3-new-int" && st == "sat" {
-				// the integer-blasting mode has been seen to answer "sat" where z3's default mode
-				// and cvc5 both prove "unsat": it is used as a prover only, its models are ignored
+			file, tag := f, sv
+			if strings.HasSuffix(sv, "@int") {
+				// integer encoding: a sound abstraction, used as a prover only ("sat" means nothing)
+				file, sv = pr.intFile[f], strings.TrimSuffix(sv, "@int")
+			}
+			st, out, d := runSolver(rctx, solvers[sv], file, tmo)
+			if tag != sv && st == "sat" {
 				st = "unknown"
 			}
+			sv = tag
 			mu.Lock()
 			if rctx.Err() == nil || st == "unsat" || st == "sat" {
 				o.Time += d
@@ -251,7 +268,7 @@ func (p *Prog) solve(pr *prepared, cfg SolveConfig) *Outcome {
 				}
 			}
 			mu.Unlock()
-			if st == "unsat" || st == "sat" {
+			if (st == "unsat" || st == "sat") && !cfg.CrossCheck {
 				cancel()
 			}
 			res <- [2]string{sv, st}
@@ -259,14 +276,71 @@ func (p *Prog) solve(pr *prepared, cfg SolveConfig) *Outcome {
 		// NOTE: z3's integer-blasting mode (smt.bv.solver=2) was tried as a third racer and removed:
 		// it answered "unsat" on a satisfiable quantifier-free query (zero_extend of extract) and
 		// "sat" on unsatisfiable ones, i.e. it is unsound in this z3 build.
-		go race("z3-new")
-		go race("cvc5")
-		rs := [][2]string{<-res, <-res}
+		racers := []string{"z3-new", "cvc5"}
+		for _, sv := range racers {
+			go race(sv)
+		}
+		var rs [][2]string
+		// the integer encoding joins the race when the bit-vector solvers have not answered quickly
+		// (or at once when answers are being cross-checked)
+		pending := len(racers)
+		joined := pr.intFile[f] == ""
+		join := func() {
+			if !joined {
+				joined = true
+				pending += 2
+				go race("z3-new@int")
+				go race("cvc5@int")
+			}
+		}
+		if cfg.CrossCheck {
+			join()
+		}
+		timer := time.NewTimer(1200 * time.Millisecond)
+		for pending > 0 {
+			select {
+			case r := <-res:
+				rs = append(rs, r)
+				pending--
+				if pending == 0 && !joined && r[1] != "unsat" && r[1] != "sat" {
+					decided := false
+					for _, x := range rs {
+						if x[1] == "unsat" || x[1] == "sat" {
+							decided = true
+						}
+					}
+					if !decided {
+						join()
+					}
+				}
+			case <-timer.C:
+				decided := false
+				for _, x := range rs {
+					if x[1] == "unsat" || x[1] == "sat" {
+						decided = true
+					}
+				}
+				if !decided {
+					join()
+				}
+			}
+		}
+		timer.Stop()
 		cancel()
 		last, lastFile = "unknown", f
 		for _, r := range rs {
 			if r[1] == "unsat" {
 				last = "unsat"
+			}
+		}
+		if cfg.CrossCheck && last == "unsat" {
+			// every answer is in: a definite "sat" next to an "unsat" on the same level is an engine error
+			for _, r := range rs {
+				if r[1] == "sat" {
+					o.Status = "engine-error"
+					o.Detail += fmt.Sprintf("solver disagreement at level %d: %v\n", lv, rs)
+					return o
+				}
 			}
 		}
 		if last != "unsat" {
